@@ -227,6 +227,17 @@ func init() {
 				}
 				return
 			}
+			var cl struct {
+				Closer bool `json:"closable_reporter_stays_open"`
+				Cached bool `json:"cached"`
+			}
+			if json.Unmarshal(ctx.Replay, &cl) == nil && cl.Closer {
+				ctx.Case(cl, "", "closable-reporter-stays-open", "")
+				if f := c07CloserStays(cl.Cached); f != "" {
+					ctx.Fail("closing_a_scope_never_affects_another", f, cl, nil)
+				}
+				return
+			}
 			var fl struct {
 				InFlight bool `json:"close_during_stalled_delivery"`
 				Cached   bool `json:"cached"`
@@ -292,6 +303,14 @@ func init() {
 			cs := map[string]interface{}{"others_stream": true, "cached": k%2 == 1, "dropped_by_pass": k%4 < 2, "victim": k / 4}
 			ctx.Case(cs, "", "close-does-not-affect-other-scopes", "")
 			if f := c07Others(k%2 == 1, k%4 < 2, k/4); f != "" {
+				ctx.Fail("closing_a_scope_never_affects_another", f, cs, nil)
+			}
+		}
+		// the reporter shared by all scopes implements io.Closer: a subscope's Close leaves it open
+		for k := 0; k < 2; k++ {
+			cs := map[string]interface{}{"closable_reporter_stays_open": true, "cached": k == 1}
+			ctx.Case(cs, "", "closable-reporter-stays-open", "")
+			if f := c07CloserStays(k == 1); f != "" {
 				ctx.Fail("closing_a_scope_never_affects_another", f, cs, nil)
 			}
 		}
